@@ -39,7 +39,7 @@ func NewSlogHandler(logger Logger, config *HandlerOptions) logslog.Handler {
 		logger.SetLevel(config.Level)
 	}
 
-	return &handler4LogSlog{logger.SetColorMode(!config.NoColor).SetJSONMode(config.JSON)}
+	return &handler4LogSlog{Logger: logger.SetColorMode(!config.NoColor).SetJSONMode(config.JSON)}
 }
 
 // HandlerOptions is used for our log/slog Handler.
@@ -56,6 +56,16 @@ type HandlerOptions struct {
 
 type handler4LogSlog struct {
 	Logger
+
+	// goas holds what WithGroup and WithAttrs added, in call order. A derived
+	// handler shares the underlying Logger, so it keeps its destinations,
+	// format and level.
+	goas []groupOrAttrs
+}
+
+type groupOrAttrs struct {
+	group string // a group opened by WithGroup, or
+	attrs Attrs  // attributes added by WithAttrs
 }
 
 func convertLevelToLogSlog(lvl Level) logslog.Level {
@@ -93,7 +103,7 @@ func (s *handler4LogSlog) Enabled(ctx context.Context, lvl logslog.Level) bool {
 func (s *handler4LogSlog) Handle(ctx context.Context, rec logslog.Record) error {
 	lvl := convertLogSlogLevel(rec.Level)
 	if wi, ok := s.Logger.(LogSlogAware); ok {
-		fields := convertLogSlogRecordAttrs(rec)
+		fields := s.withDerived(convertLogSlogRecordAttrs(rec))
 
 		// rec.PC would be abandoned because we want skip the extra frames
 		ei := 0
@@ -106,7 +116,7 @@ func (s *handler4LogSlog) Handle(ctx context.Context, rec logslog.Record) error 
 
 		wi.WriteThru(ctx, lvl, rec.Time, rec.PC, rec.Message, fields)
 	} else {
-		fields := convertLogSlogRecordAttrs(rec)
+		fields := s.withDerived(convertLogSlogRecordAttrs(rec))
 		s.LogAttrs(ctx, lvl, rec.Message, fields)
 	}
 	return nil
@@ -115,25 +125,45 @@ func (s *handler4LogSlog) Handle(ctx context.Context, rec logslog.Record) error 
 // WithAttrs returns a new Handler whose attributes consist of
 // both the receiver's attributes and the arguments.
 func (s *handler4LogSlog) WithAttrs(attrs []logslog.Attr) logslog.Handler {
-	fields := make([]Attr, len(attrs))
+	if len(attrs) == 0 {
+		return s
+	}
+	fields := make(Attrs, len(attrs))
 	for i, attr := range attrs {
 		fields[i] = convertAttrToField(attr)
 	}
-	return s.withFields(fields...)
+	return s.derive(groupOrAttrs{attrs: fields})
 }
 
 // WithGroup returns a new Handler with the given group appended to
 // the receiver's existing groups.
 func (s *handler4LogSlog) WithGroup(name string) logslog.Handler {
-	return s.withFields(Group(name))
+	if name == "" {
+		return s
+	}
+	return s.derive(groupOrAttrs{group: name})
 }
 
-// withFields returns a cloned Handler with the given fields.
-func (s *handler4LogSlog) withFields(fields ...Attr) *handler4LogSlog {
-	cloned := &handler4LogSlog{
-		New().SetAttrs(fields...),
+// derive returns a handler on the same Logger with one more group or
+// attribute set.
+func (s *handler4LogSlog) derive(goa groupOrAttrs) *handler4LogSlog {
+	goas := make([]groupOrAttrs, len(s.goas), len(s.goas)+1)
+	copy(goas, s.goas)
+	return &handler4LogSlog{Logger: s.Logger, goas: append(goas, goa)}
+}
+
+// withDerived puts the record's own attributes into the groups opened by
+// WithGroup and adds the attributes given to WithAttrs, innermost first.
+func (s *handler4LogSlog) withDerived(fields Attrs) Attrs {
+	for i := len(s.goas) - 1; i >= 0; i-- {
+		if goa := s.goas[i]; goa.group != "" {
+			fields = Attrs{&gkvp{goa.group, fields}}
+		} else {
+			all := make(Attrs, 0, len(goa.attrs)+len(fields))
+			fields = append(append(all, goa.attrs...), fields...)
+		}
 	}
-	return cloned
+	return fields
 }
 
 var _ logslog.Handler = (*handler4LogSlog)(nil)
